@@ -64,6 +64,7 @@ struct Args {
     budget: Option<u64>,
     build: String,
     only: Option<(String, u64)>,
+    skip_cases: Vec<(String, u64)>,
     budget_scale: u64,
     also: Option<PathBuf>,
 }
@@ -85,6 +86,7 @@ fn parse_args() -> Args {
         budget: None,
         build: "checked".to_string(),
         only: None,
+        skip_cases: vec![],
         budget_scale: 100,
         also: None,
     };
@@ -154,6 +156,13 @@ fn parse_args() -> Args {
             }
             "--also" => {
                 a.also = Some(PathBuf::from(need(v)));
+                i += 2;
+            }
+            "--skip-case" => {
+                let s = need(v);
+                if let Some((p, k)) = s.rsplit_once(':') {
+                    a.skip_cases.push((p.to_string(), k.parse().unwrap_or(0)));
+                }
                 i += 2;
             }
             "--only" => {
@@ -243,6 +252,8 @@ pub struct Ctx {
     shard: usize,
     nshards: usize,
     only: Option<(String, u64)>,
+    /// cases a previous run of this shard could not finish because the worker was killed from outside
+    skip_cases: Vec<(String, u64)>,
     deadline: Instant,
     started: Instant,
     cur_path: Option<PathBuf>,
@@ -323,6 +334,10 @@ impl Ctx {
         }
         let k = self.phase_next;
         self.phase_next += if self.only.is_some() { 1 } else { self.nshards as u64 };
+        if self.skip_cases.iter().any(|(p, c)| *p == self.phase && *c == k) {
+            *self.counters.entry("cases_not_explored.worker_process_was_killed_from_outside(SIGKILL,e.g.out_of_memory)".to_string()).or_insert(0) += 1;
+            return self.next_case();
+        }
         self.cur_case = k;
         self.cases += 1;
         *self.counters.entry(format!("cases.{}", self.phase)).or_insert(0) += 1;
@@ -438,6 +453,7 @@ fn new_ctx(spec: &Spec, a: &Args, shard: usize, nshards: usize, budget: u64) -> 
         shard,
         nshards,
         only: a.only.clone(),
+        skip_cases: a.skip_cases.clone(),
         deadline: now + Duration::from_secs(budget),
         started: now,
         cur_path: a.part_out.as_ref().map(|p| p.with_extension("cur")),
@@ -581,10 +597,13 @@ pub fn run(spec: Spec, f: fn(&mut Ctx)) -> ! {
     std::fs::create_dir_all(&tmp).expect("tmp dir");
     let tier_s = if a.tier == Tier::Thorough { "thorough" } else { "quick" };
     let mut kids = vec![];
-    for i in 0..nshards {
+    let spawn_shard = |i: usize, skips: &[String]| {
         let part = tmp.join(format!("part{}.json", i));
         let mut c = Command::new(&exe);
         c.arg("--tier").arg(tier_s).arg("--seed").arg(format!("{}", a.seed as i64)).arg("--shard").arg(format!("{}/{}", i, nshards)).arg("--part-out").arg(&part).arg("--budget").arg(budget.to_string()).arg("--build").arg(&a.build);
+        for s in skips {
+            c.arg("--skip-case").arg(s);
+        }
         c.stdin(Stdio::null());
         let err_path = tmp.join(format!("part{}.stderr", i));
         if let Ok(fh) = std::fs::File::create(&err_path) {
@@ -592,7 +611,10 @@ pub fn run(spec: Spec, f: fn(&mut Ctx)) -> ! {
         }
         c.stdout(Stdio::null());
         let child = c.spawn().expect("spawn shard");
-        kids.push((i, part, child, err_path));
+        (i, part, child, err_path)
+    };
+    for i in 0..nshards {
+        kids.push(spawn_shard(i, &[]));
     }
     // generous wall-clock watchdog: its firing is inconclusive, never a violation
     let watchdog = Duration::from_secs(budget * 4 + 600);
@@ -600,7 +622,14 @@ pub fn run(spec: Spec, f: fn(&mut Ctx)) -> ! {
     let mut abort_violations: Vec<Violation> = vec![];
     let mut parts: Vec<Value> = vec![];
     let mut distinct: HashSet<u64> = HashSet::new();
-    for (i, part, mut child, err_path) in kids {
+    for kid in kids {
+        // A worker killed from outside (SIGKILL: the kernel's out-of-memory killer, an operator)
+        // says nothing about the property. The shard is started again without the case it was
+        // working on (at most twice); the case is counted as not explored in the evidence.
+        let mut skips: Vec<String> = vec![];
+        let mut kid = kid;
+        loop {
+        let (i, part, mut child, err_path) = kid;
         let status = loop {
             match child.try_wait() {
                 Ok(Some(st)) => break Some(st),
@@ -637,10 +666,18 @@ pub fn run(spec: Spec, f: fn(&mut Ctx)) -> ! {
                                 detail: json!({"stderr_tail": errtail, "shard": i}),
                             });
                         }
+                        Some(9) if !cur.is_empty() && skips.len() < 2 => {
+                            println!("NOTE: shard {} was killed from outside (SIGKILL) while working on case {}; restarted without that case", i, cur);
+                            skips.push(cur.clone());
+                            kid = spawn_shard(i, &skips);
+                            continue;
+                        }
                         other => inconclusive.push(format!("shard {} ended abnormally (signal {:?}, code {:?}) at case {}: {}", i, other, st.code(), cur, errtail)),
                     }
                 }
             }
+        }
+        break;
         }
     }
 
